@@ -272,7 +272,7 @@ def run_shard(shard: Dict[str, Any]) -> Acc:
         acc.hist("order_mode", prog["drawing"]["order_mode"])
         acc.hist("compact", prog["drawing"]["compact"])
         flags: Dict[str, Any] = {}
-        common.guarded(acc, check_program, prog, acc, flags)
+        common.guarded(acc, check_program, prog, acc, flags, case={"program": prog})
         acc.case(bp.phash(prog), bool(flags.get("nontrivial")), sample=prog if i < 40 else None)
     return acc
 
